@@ -67,7 +67,11 @@ def multitarget_rule(build_inputs, buildfile, targets, deps=None,
     if len(targets) > 1:
         first = targets[0]
         primary = _get_path(first).addext('.stamp')
-        buildfile.rule(target=targets, deps=[primary])
+        # Give this rule a (no-op) recipe; otherwise, make assumes the
+        # targets' modification times didn't change when the stamp file is
+        # rebuilt, and won't rebuild anything that depends on them.
+        buildfile.rule(target=targets, deps=[primary],
+                       recipe=[Silent([':'])])
         recipe = listify(recipe) + [Silent([ 'touch', qvar('@') ])]
         if clean_stamp:
             build_inputs.add_target(file_types.File(primary))
